@@ -220,8 +220,8 @@ func checkC08(P *Program, r *Result, tier string) {
 	// ---------- NEG32 ----------
 	neg := newNeg32(P, run, scope)
 	neg.check(r)
-	if neg.sources < 9 {
-		r.fatal("NEG32: expected at least 9 declared-size reads in the skippers, found %d", neg.sources)
+	if neg.sources < 5 {
+		r.fatal("NEG32: expected at least 5 declared-size reads in the skippers, found %d", neg.sources)
 	}
 
 	// ---------- UNKNOWN-TAG ----------
@@ -373,10 +373,39 @@ func (n *neg32) isSource(v ssa.Value) bool {
 	if cal.Pkg != nil && cal.Pkg.Pkg.Path() == "encoding/binary" && cal.Name() == "Uint32" {
 		return true
 	}
-	if cal.Name() == "p2i32" && inRepo(cal) {
-		return true
+	return isWordReader(cal)
+}
+
+// isWordReader: a repository function that assembles one 32-bit word from the
+// bytes its single argument (a byte slice or a raw pointer) refers to.
+func isWordReader(cal *ssa.Function) bool {
+	if cal == nil || !inRepo(cal) || cal.Blocks == nil || len(cal.Params) != 1 || cal.Signature.Results().Len() != 1 {
+		return false
 	}
-	return false
+	if w, _ := intBits(cal.Signature.Results().At(0).Type()); w != 32 {
+		return false
+	}
+	if !isByteSlice(cal.Params[0].Type()) && !isUnsafePointer(cal.Params[0].Type()) {
+		return false
+	}
+	loads := 0
+	for _, b := range cal.Blocks {
+		for _, in := range b.Instrs {
+			switch x := in.(type) {
+			case *ssa.Call:
+				if c2 := x.Common().StaticCallee(); c2 != nil && c2.Pkg != nil && c2.Pkg.Pkg.Path() == "encoding/binary" && c2.Name() == "Uint32" {
+					return true
+				}
+			case *ssa.UnOp:
+				if x.Op == token.MUL {
+					if w, _ := intBits(x.Type()); w == 8 {
+						loads++
+					}
+				}
+			}
+		}
+	}
+	return loads >= 4
 }
 
 // sizeResults: which results of fn are declared sizes (derived from a source by conversions only).
